@@ -118,7 +118,7 @@ Section Agg.
     dget (x mx s) nm key = Some (VI z) -> dget (x mx (fst (eval q blanks AND c s l))) nm key = Some (VI z).
   Proof.
     intros Ho H. unfold first_owns in Ho.
-    destruct c as [b|a|b a|g]; cbn [eval comp_agg] in *.
+    destruct c as [b|a|b a|g|na0 i0 k0 r0]; cbn [eval comp_agg] in *.
     - exact H.
     - destruct a as [? ?|? ?|? ?|? ?|? ?|? ?|g]; try (cbn [fst]; unfold dget in *; rewrite do_action_dicts; [exact H|discriminate]).
       cbn [fst do_action]. apply do_agg_keeps_first; [destruct g; exact Ho|exact H].
@@ -126,6 +126,7 @@ Section Agg.
       destruct a as [? ?|? ?|? ?|? ?|? ?|? ?|g]; try (cbn [fst]; unfold dget in *; rewrite do_action_dicts; [exact H|discriminate]).
       cbn [fst do_action]. apply do_agg_keeps_first; [destruct g; exact Ho|exact H].
     - apply do_agg_keeps_first; [destruct g; exact Ho|exact H].
+    - exact H.
   Qed.
 
   (** the whole match part on one line *)
